@@ -87,13 +87,34 @@ T = [
  ("R2-C19-bdd-setvarorder-len2", "C19", "/tmp/seed2/C19-out", "patch2.diff", "demo2_capi.c", "r2-C19b", ["r2-C19b"], "oxidd_bdd_manager_set_var_order with exactly two variables that are currently inverted is ignored (len <= 2 shortcut)"),
  ("R2-C20-zbdd-subset-cache-key-level", "C20", "/tmp/seed2/C20-out", "patch.diff", "seeded_C20.rs", "r2-C20a", ["r2-C20a"], "apply cache compiled in only: ZBDD subset0/subset1/change under a non-identity order, the same node first with variable w then with v where level(w) == v"),
  ("R2-C20-parallel-ternary-late-guard", "C20", "/tmp/seed2/C20-out", "patch2.diff", "seeded_C20_2.rs", "r2-C20b", ["r2-C20b", "r2-C20b2", "r2-C20b3"], "multi-threading with >= 2 workers only: ite / apply-quantify whose first joined branch fails with out of memory while the second succeeds (its edge is never released)"),
+ # ---- third round (/tmp/seed3) ----
+ ("R3-C01-levelswap-lookup-lower", "C01", "/tmp/seed3/C01-out", "patch.diff", "seeded_C01.rs", "r3-C01a", ["r3-C01a"], "level_swap looks a new cofactor node up in the new lower table instead of the taken old-upper one: a rewritten node before a still-live equal node gives a duplicate"),
+ ("R3-C01-pool-slice-skips-last", "C01", "/tmp/seed3/C01-out", "patch2.diff", "seeded_C01_2.rs", "r3-C01b", ["r3-C01b", "r3-C01b2"], "WorkerPool::slice_for_each skips the last element: only the parallel write-back of level numbers of set_var_order (>= 2 workers, approximate node count >= 65536) is affected"),
+ ("R3-C03-zbdd-restrict-unreduced-empty", "C03", "/tmp/seed3/C03-out", "patch.diff", "seeded_C03.rs", "r3-C03a", ["r3-C03a"], "as R2-C01-zbdd-restrict-unreduced-empty (found independently)"),
+ ("R3-C03-remove-tombstone-successor", "C03", "/tmp/seed3/C03-out", "patch2.diff", "demo2_seeded_C03_reorder.rs", "r3-C03b", ["r3-C03b"], "as R2-C17-remove-tombstone-successor (found independently): reached through LevelView::remove during reordering"),
+ ("R3-C05-terminal-iterator-unretained", "C05", "/tmp/seed3/C05-out", "patch.diff", "seeded_C05.rs", "r3-C05a", ["r3-C05a"], "MTBDD: enumerating the terminals (Manager::terminals, DOT export) hands out un-counted edges; a terminal referenced once is freed by the next gc and its slot reused"),
+ ("R3-C05-edgehashmap-insert-leak", "C05", "/tmp/seed3/C05-out", "patch2.diff", "seeded_C05_2.rs", "r3-C05b", ["r3-C05b", "r3-C05b2"], "DDDMP export of a diagram with a shared node: EdgeHashMap::insert clones the key although it is present; reference counts one too high afterwards, function values right"),
+ ("R3-C06-terminal-store-inline-gc", "C06", "/tmp/seed3/C06-out", "patch.diff", "seeded_C06.rs", "r3-C06a", ["r3-C06a"], "MTBDD terminal store exactly full when a new value is requested: the terminal manager collects inline (outside pre_gc/post_gc), the apply cache keeps an edge to a freed terminal whose slot is reused"),
+ ("R3-C06-tryremove-unconditional", "C06", "/tmp/seed3/C06-out", "patch2.diff", "seeded_C06_2.rs", "r3-C06b", ["r3-C06b"], "as R2-C05-zbdd-addvars-frees-node (found independently)"),
+ ("R3-C07-terminal-getedge-unlock-before-retain", "C07", "/tmp/seed3/C07-out", "patch.diff", "seeded_C07.rs", "r3-C07a", ["r3-C07a"], "MTBDD: get_edge of a present terminal drops the state mutex before incrementing the count; a collection on another thread frees the terminal in the gap"),
+ ("R3-C07-gccount-after-collection", "C07", "/tmp/seed3/C07-out", "patch2.diff", "seeded_C07_2.rs", "r3-C07b", ["r3-C07b", "r3-C07b2", "r3-C07b3"], "gc_count advanced at the end of a collection: during a collection freeing >= 65536 nodes (slots handed back early) another thread reuses node ids while a SatCountCache that memoises every node still holds the old epoch"),
+ ("R3-C08-updatelevels-old-level-numbers", "C08", "/tmp/seed3/C08-out", "patch.diff", "seeded_C08.rs", "r3-C08a", ["r3-C08a", "r3-C08a2"], "concurrent set_var_order (>= 2 workers, >= 65536 nodes by the approximate count) moving a non-empty level into the position of an empty one: the parallel write-back uses the old level numbers"),
+ ("R3-C08-pointer-reorder-no-pregc", "C08", "/tmp/seed3/C08-out", "patch2.diff", "seeded_C08b.rs", "r3-C08b", ["r3-C08b"], "pointer backend only: reorder without pre_gc/post_gc; a cached result without live handle is deleted by a swap, its slot reused, the operation repeated before a gc"),
+ ("R3-C09-pointer-leveliter-nextback", "C09", "/tmp/seed3/C09-out", "patch.diff", "seeded_C09.rs", "r3-C09a", ["r3-C09a"], "pointer backend and ZBDD only: level views obtained from the back report a level number one too high (tautology chain mislabelled)"),
+ ("R3-C09-zbdd-diff-swapped-nomt", "C09", "/tmp/seed3/C09-out", "patch2.diff", "seeded_C09_demo2.rs", "r3-C09b", ["r3-C09b"], "builds without multi-threading only: ZBDD diff(f, g) returns g minus f"),
+ ("R3-C14-notedgeowned-no-guard", "C14", "/tmp/seed3/C14-out", "patch.diff", "seeded_C14.rs", "r3-C14a", ["r3-C14a"], "default BooleanFunction::not_edge_owned (simple BDD, ZBDD) leaks its operand when the negation runs out of memory; reachable through edge-level calls and DDDMP import of a file with complemented arcs"),
+ ("R3-C14-import-terminal-unwrap", "C14", "/tmp/seed3/C14-out", "patch2.diff", "demo2_seeded_C14_2.rs", "r3-C14b", ["r3-C14b", "r3-C14b2"], "DDDMP ASCII import into an MTBDD manager whose terminal capacity is exhausted by a value not yet present: panic instead of the out-of-memory error"),
+ ("R3-C19-bdd-substitute-empty-borrowed", "C19", "/tmp/seed3/C19-out", "patch.diff", "seeded_C19.c", "r3-C19a", ["r3-C19a", "r3-C19a2"], "oxidd_bdd_substitute with a substitution without pairs returns the argument handle itself (borrowed instead of owned)"),
+ ("R3-C19-bcdd-vartolevel-inverse", "C19", "/tmp/seed3/C19-out", "patch2.diff", "seeded_C19_2.c", "r3-C19b", ["r3-C19b", "r3-C19b2"], "oxidd_bcdd_manager_var_to_level returns level_to_var: wrong under an order that is not its own inverse (>= 3 variables, rotation)"),
+ ("R3-C20-pointer-nodeset-pageoffset", "C20", "/tmp/seed3/C20-out", "patch.diff", "seeded_C20.rs", "r3-C20a", ["r3-C20a", "r3-C20a2"], "pointer backend only: NodeSet drops an address bit, two nodes exactly 1 MiB apart in one page count as one: node_count() of a function with more than 32768 nodes spread over the store is too small"),
+ ("R3-C20-pointer-reorder-flag-stuck", "C20", "/tmp/seed3/C20-out", "patch2.diff", "seeded_C20_2.rs", "r3-C20b", ["r3-C20b"], "pointer backend with apply cache only: reorder_gc_prepared is not reset, every gc after the first reordering skips clearing the cache"),
 ]
 summary = []
 for sid, prop, out, patch, demo, conf, evals, needs in T:
     src = os.path.join(S, out)
     if not os.path.exists(os.path.join(src, patch)):
         continue
-    if sid.startswith("R2-") and os.path.exists(os.path.join(ROOT, "seeded", sid, "meta.json")) and not os.path.exists(os.path.join(src, patch)):
+    if (sid.startswith("R2-") or sid.startswith("R3-")) and os.path.exists(os.path.join(ROOT, "seeded", sid, "meta.json")) and not os.path.exists(os.path.join(src, patch)):
         continue
     cj = f"/tmp/seedconf/{conf}.json"
     conf_res = json.load(open(cj)) if os.path.exists(cj) else None
